@@ -1,6 +1,7 @@
 package main
 
 import (
+	"database/sql/driver"
 	"context"
 	"encoding/json"
 	"flag"
@@ -39,6 +40,9 @@ type l5Op struct {
 	// Fail (run only): the driver fails the execution of this run (the cache protocol is
 	// the same: the statement was prepared and stored before it is executed)
 	Fail bool `json:"fail,omitempty"`
+	// Bad (run only): the run is a Query.Get whose first row cannot be decoded; what the
+	// cache and the driver see is the same as for any other run
+	Bad bool `json:"bad,omitempty"`
 }
 
 func genL5(r *rng.R) []l5Op {
@@ -94,7 +98,11 @@ func genL5(r *rng.R) []l5Op {
 				shape = r.Pick9()
 			}
 			lastShape = shape
-			add(l5Op{Op: "run", S: liveS[r.Intn(len(liveS))], D: liveD[r.Intn(len(liveD))], Shape: shape, Fail: r.Chance(1, 6)})
+			o := l5Op{Op: "run", S: liveS[r.Intn(len(liveS))], D: liveD[r.Intn(len(liveD))], Shape: shape, Fail: r.Chance(1, 6)}
+			if !o.Fail && r.Chance(1, 6) {
+				o.Bad = true
+			}
+			add(o)
 		case x == 11 && len(liveS) > 0 && len(liveD) > 0 && nQ < 4:
 			// a Query that is built now and run later (handles may be dropped in between)
 			nQ++
@@ -187,6 +195,19 @@ func collect(stable func() string) {
 	}
 }
 
+// prepares counts the driver-level prepares seen so far by all databases of a case.
+func prepares(states []*fakedrv.State) int {
+	n := 0
+	for _, st := range states {
+		for _, e := range st.Events() {
+			if e.Kind == "prepare" {
+				n++
+			}
+		}
+	}
+	return n
+}
+
 type l5DB struct {
 	db    *sqlair.DB
 	state *fakedrv.State
@@ -216,7 +237,12 @@ type l5Obs struct {
 	AllDropped  bool     `json:"allDropped"`
 	NoStats     bool     `json:"noStats"` // degraded mode: the cache snapshot hook is not available
 	Errors      []string `json:"errors"`
-	Panic       string   `json:"panic,omitempty"`
+	// PrepPerOp: driver-level prepares made by each run / runq operation, in order
+	PrepPerOp []int `json:"prepPerOp"`
+	// LeftOpen: a failed Get left its result set (and so its connection and, for ever, its
+	// driver statement) open
+	LeftOpen bool   `json:"leftOpen"`
+	Panic    string `json:"panic,omitempty"`
 }
 
 // shapeOfSQL recovers the shape from the generated SQL: placeholders in the first and
@@ -290,6 +316,7 @@ func runL5Case(h []l5Op) (obs *l5Obs) {
 		cs := hookGetCacheStats()
 		return fmt.Sprint(n, len(cs.Pairs), cs.Statements, cs.DBs)
 	}
+history:
 	for _, op := range h {
 		switch op.Op {
 		case "newS":
@@ -314,7 +341,27 @@ func runL5Case(h []l5Op) (obs *l5Obs) {
 			if op.Fail {
 				dbs[op.D-1].state.FailNext("query", inj(2))
 			}
-			err := dbs[op.D-1].db.Query(ctx, stmts[op.S-1], ints, strs).GetAll(&rows)
+			p0 := prepares(keep)
+			var err error
+			if op.Bad {
+				// one row whose first column does not convert to the int64 member
+				dbs[op.D-1].state.SetRows([][]driver.Value{{"abc", "r1", "l1"}})
+				var row Row
+				err = dbs[op.D-1].db.Query(ctx, stmts[op.S-1], ints, strs).Get(&row)
+				dbs[op.D-1].state.SetRows(nil)
+				if err != nil && errText(err) == "wrapped(scan)" {
+					err = nil // the scripted failure
+				}
+				if dbs[op.D-1].db.PlainDB().Stats().InUse != 0 {
+					// nothing can be run on this database any more (one pooled connection)
+					obs.LeftOpen = true
+					obs.PrepPerOp = append(obs.PrepPerOp, prepares(keep)-p0)
+					break history
+				}
+			} else {
+				err = dbs[op.D-1].db.Query(ctx, stmts[op.S-1], ints, strs).GetAll(&rows)
+			}
+			obs.PrepPerOp = append(obs.PrepPerOp, prepares(keep)-p0)
 			if op.Fail && err != nil && strings.Contains(err.Error(), "INJ2") {
 				err = nil // the scripted failure
 			}
@@ -336,7 +383,9 @@ func runL5Case(h []l5Op) (obs *l5Obs) {
 			var rows []Row
 			q := queries[op.Q]
 			delete(queries, op.Q)
+			p0 := prepares(keep)
 			err := q.GetAll(&rows)
+			obs.PrepPerOp = append(obs.PrepPerOp, prepares(keep)-p0)
 			q = nil
 			if err != nil && errText(err) != "noRows" {
 				obs.Errors = append(obs.Errors, err.Error())
